@@ -192,6 +192,133 @@ def gen(_shared):
     text, rett, monad = _tr(cdte, fn, "glue_Date___sub___date", {"other": OB}, OB,
                             "translated from src/pendulum/date.py :: Date.__sub__ SPECIALISED to a date operand (self an exact Date)", force_result=True)
     out.append(text)
+    # ---------------- pendulum.instance / pendulum.date (objects that are dates or datetimes), Interval.__init__ up to precise_diff
+    ci = _ctx()
+    ci.kwfuncs["_o_pdate_new"] = c.kwfuncs["_o_pdate_new"]
+    fn = _prep(init_tree, "date")
+    text, rett, monad = _tr(ci, fn, "glue_pendulum_date", {"year": Z, "month": Z, "day": Z}, None, "translated from src/pendulum/__init__.py :: date",
+                            force_result=True)
+    out.append(text)
+    ci.funcs["date"] = ("glue_pendulum_date", [Z, Z, Z], OB, "result")
+    ci.funcs["pendulum.date"] = ci.funcs["date"]
+    ci.opaque["isinstance(obj, (DateTime, Date, Time))"] = ("is_pdate {obj}", B)
+    ci.opaque["isinstance(obj, _datetime.date)"] = ("true", B)
+    ci.opaque["isinstance(obj, _datetime.datetime)"] = ("is_dt {obj}", B)
+    out.append("(* BY HAND: DateTime.instance(obj, tz=tz) on a class-tagged object: the translation Gen/TzGlue.v glue_DateTime_instance *)\n"
+               "Definition o_dt_instance (obj : gobj) (tz : option gtz) : result gobj := o_of_gdt 3 (glue_DateTime_instance (o_gdt obj) tz).\n")
+    ci.kwfuncs["DateTime.instance"] = ("o_dt_instance", ["dt", "tz"], {"tz": "(Some g_UTC)"}, [OB, OTZ], OB, "result")
+    insts = [n for n in init_tree.body if isinstance(n, ast.FunctionDef) and n.name == "instance" and not P._is_overload(n)]
+    if len(insts) != 1:
+        raise P.Unsupported("__init__.py: pendulum.instance not found exactly once")
+    sp = Specialise("instance", {"isinstance(obj, _datetime.time)": False})
+    fn = sp.visit(copy.deepcopy(insts[0]))
+    if sp.used != {"isinstance(obj, _datetime.time)"}:
+        raise P.Unsupported("pendulum.instance: the time branch disappeared")
+
+    class InstRw(ast.NodeTransformer):
+        def visit_Call(self, node):
+            self.generic_visit(node)
+            if ast.unparse(node.func) == "DateTime.instance":
+                return ast.copy_location(ast.Call(func=ast.Name(id="DateTime.instance", ctx=ast.Load()), args=node.args, keywords=node.keywords), node)
+            return node
+    fn = InstRw().visit(IRw("instance", False).visit(fn))
+    ast.fix_missing_locations(fn)
+    if [a.arg for a in fn.args.args] != ["obj", "tz"] or [ast.unparse(d) for d in fn.args.defaults] != ["UTC"]:
+        raise P.Unsupported("pendulum.instance: unexpected signature")
+    ci.consts["UTC"] = ("g_UTC", TZ)
+    text, rett, monad = _tr(ci, fn, "glue_pendulum_instance", {"obj": OB, "tz": OTZ}, None,
+                            "translated from src/pendulum/__init__.py :: instance SPECIALISED to an object that is a date or a datetime "
+                            "(isinstance(obj, _datetime.time) = False; isinstance(obj, _datetime.date) = True)", force_result=True)
+    if rett != OB or monad != "result":
+        raise P.Unsupported("pendulum.instance: unexpected type")
+    out.append(text)
+    ci.kwfuncs["pendulum.instance"] = ("glue_pendulum_instance", ["obj", "tz"], {"tz": "(Some g_UTC)"}, [OB, OTZ], OB, "result")
+
+    fn = _prep(iv_tree, "Interval.__init__", native=True)
+    if [a.arg for a in fn.args.args] != ["self", "start", "end", "absolute"]:
+        raise P.Unsupported("Interval.__init__: unexpected signature")
+    body = fn.body
+    if ast.unparse(body[0]) != "super().__init__()" or ast.unparse(body[-1]) != "self._delta: PreciseDiff = precise_diff(_start, _end)":
+        raise P.Unsupported("Interval.__init__: first / last statement changed")
+    stores = []
+
+    class SelfStores(ast.NodeTransformer):
+        def visit_Assign(self, node):
+            self.generic_visit(node)
+            if len(node.targets) == 1 and isinstance(node.targets[0], ast.Attribute) and ast.unparse(node.targets[0].value) == "self":
+                stores.append(node.targets[0].attr)
+                return ast.copy_location(ast.Assign(targets=[ast.Name(id="s" + node.targets[0].attr, ctx=ast.Store())], value=node.value), node)
+            return node
+
+        def visit_AnnAssign(self, node):
+            self.generic_visit(node)
+            if isinstance(node.target, ast.Attribute) and ast.unparse(node.target.value) == "self":
+                stores.append(node.target.attr)
+                return ast.copy_location(ast.Assign(targets=[ast.Name(id="s" + node.target.attr, ctx=ast.Store())], value=node.value), node)
+            if node.value is None:
+                return None          # a bare annotation `_start: _T`
+            return node
+    fn.body = body[1:-1]
+    fn = SelfStores().visit(fn)
+    if sorted(set(stores)) != ["_absolute", "_end", "_invert", "_start"]:
+        raise P.Unsupported(f"Interval.__init__: unexpected attribute stores {sorted(set(stores))}")
+    fn.body.append(ast.parse("return (s_invert, s_start, s_end, _start, _end)").body[0])
+    fn.args.args = fn.args.args[1:]
+    ast.fix_missing_locations(fn)
+
+    class PInst(ast.NodeTransformer):
+        def visit_Call(self, node):
+            self.generic_visit(node)
+            if ast.unparse(node.func) == "pendulum.instance":
+                return ast.copy_location(ast.Call(func=ast.Name(id="pendulum.instance", ctx=ast.Load()), args=node.args, keywords=node.keywords), node)
+            return node
+    fn = PInst().visit(fn)
+    ast.fix_missing_locations(fn)
+    text, rett, monad = _tr(ci, fn, "glue_Interval_init", {"start": OB, "end": OB, "absolute": B}, None,
+                            "translated from src/pendulum/interval.py :: Interval.__init__ up to precise_diff; RECOGNISED SHAPE: the attribute stores "
+                            "self._invert / _absolute / _start / _end become locals and the function returns (invert, start, end, _start, _end): the "
+                            "state it stores and the two NATIVE values it hands to precise_diff (self._delta = precise_diff(_start, _end) is the last "
+                            "statement, checked)", force_result=True)
+    out.append(text)
+
+    # ---------------- the component properties that read the PreciseDiff (`self._delta`) and Duration._days / _sign
+    out.append("From PV Require Import Model.PdBase.\n(* an Interval as far as its component properties read it: the PreciseDiff and Duration._days; "
+               "BY HAND: Duration._sign(x) = -1 if x < 0 else 1 (checked by shape) *)\n"
+               "Record givs := mkgivs { gi_delta : pdiff; gi_days : Z }.\nDefinition g_sign (x : Z) : Z := if x <? 0 then -1 else 1.\n")
+    dur_tree = ast.parse(open(src("duration.py")).read())
+    sg = P.find_function(dur_tree, "Duration._sign")
+    sgb = [ast.unparse(st) for st in sg.body if not (isinstance(st, ast.Expr) and isinstance(st.value, ast.Constant))]
+    if sgb != ["if value < 0:\n    return -1", "return 1"]:
+        raise P.Unsupported(f"Duration._sign changed: {sgb}")
+    cp = P.Ctx()
+    cp.int_boolop = cp.obj_fragment = True
+    cp.attrs.update({"_delta": ("gi_delta", "pdiff"), "_days": ("gi_days", Z), "years": ("pd_years", Z), "months": ("pd_months", Z),
+                     "days": ("pd_days", Z), "hours": ("pd_hours", Z), "minutes": ("pd_minutes", Z), "total_days": ("pd_total_days", Z)})
+    cp.kwmethods[("_sign", "givs")] = ("(fun _ : givs => g_sign)", ["value"], {}, [Z], Z, None)
+    mpy = [n for n in ast.parse(open(src("constants.py")).read()).body if isinstance(n, ast.Assign) and ast.unparse(n) == "MONTHS_PER_YEAR = 12"]
+    if len(mpy) != 1:
+        raise P.Unsupported("constants.py: MONTHS_PER_YEAR is not 12")
+    cp.consts["MONTHS_PER_YEAR"] = ("12", Z)
+    props = ("years", "months", "weeks", "remaining_days", "hours", "minutes")
+    for name in props:
+        f_ = copy.deepcopy(P.find_function(iv_tree, "Interval." + name))
+        if [ast.unparse(d) for d in f_.decorator_list] != ["property"]:
+            raise P.Unsupported(f"Interval.{name} is not a property")
+        text, rett, monad = _tr(cp, f_, "glue_Interval_" + name, {}, "givs", f"translated from src/pendulum/interval.py :: Interval.{name} (property)")
+        out.append(text)
+    # in_* read the properties of the same object
+    cp2 = copy.copy(cp)
+    cp2.attrs = dict(cp.attrs)
+    cp2.attrs.update({"years": ("glue_Interval_years", Z), "months": ("glue_Interval_months", Z)})
+    for name in ("in_years", "in_months", "in_days"):
+        f_ = copy.deepcopy(P.find_function(iv_tree, "Interval." + name))
+        text, rett, monad = _tr(cp2, f_, "glue_Interval_" + name, {}, "givs", f"translated from src/pendulum/interval.py :: Interval.{name}")
+        out.append(text)
+    cp2.kwmethods = dict(cp.kwmethods)
+    cp2.kwmethods[("in_days", "givs")] = ("glue_Interval_in_days", [], {}, [], Z, None)
+    f_ = copy.deepcopy(P.find_function(iv_tree, "Interval.in_weeks"))
+    text, rett, monad = _tr(cp2, f_, "glue_Interval_in_weeks", {}, "givs", "translated from src/pendulum/interval.py :: Interval.in_weeks")
+    out.append(text)
     return "\n".join(out) + "\n"
 
 
